@@ -673,7 +673,7 @@ def decenc_template(shape: str, pos: Tuple[int, ...], twin: bool = False, real: 
 
 FREE = {  # decoder -> lengths (quick), extra lengths (thorough)
     "dt.OutputReference": ([36, 37], [35]),
-    "sg.Signature": ([1, 7, 9], [6, 8, 65, 66]),
+    "sg.Signature": ([1, 7, 9, 65], [6, 8, 66]),
     "sg.PublicKey": ([65, 66], [64]),
     "dt.Input": ([37, 43], [38, 44, 45]),
     "dt.Transaction": ([3, 4, 40], [5, 41, 44]),
